@@ -88,24 +88,10 @@ def _as_batch(species, coords):
     return sp, xyz
 
 
-def build_md(engine, species, coords, sett, dt, Temp, output, charges=0, mult=1, damp=None, xl=None,
-             velocities=None, engine_kw=None):
-    """-> (molecule, md).  engine in basic | langevin | xl | ksa | sh (surface hopping).
-    Molecule and driver share ONE settings dict (Molecule adds 'elements' to it)."""
-    import torch
-    from seqm.Molecule import Molecule
-    from seqm.seqm_functions.constants import Constants
+def make_engine(engine, sett, dt, Temp, output, damp=None, xl=None, engine_kw=None):
+    """engine object only (for a Molecule built with the SAME settings dict `sett`)."""
     import seqm.MolecularDynamics as MD
 
-    sett = copy.deepcopy(sett)
-    sp, xyz = _as_batch(species, coords)
-    spt = torch.as_tensor(sp, dtype=torch.int64)
-    xt = torch.as_tensor(xyz, dtype=torch.float64).clone()
-    if not isinstance(charges, (int, float)):
-        charges = torch.as_tensor(np.asarray(charges), dtype=torch.float64)
-    if not isinstance(mult, (int, float)):
-        mult = torch.as_tensor(np.asarray(mult), dtype=torch.float64)
-    mol = Molecule(Constants(), sett, xt, spt, charges, mult)
     kw = dict(seqm_parameters=sett, timestep=float(dt), Temp=float(Temp), output=copy.deepcopy(output))
     kw.update(engine_kw or {})
     if engine == "basic":
@@ -123,6 +109,26 @@ def build_md(engine, species, coords, sett, dt, Temp, output, charges=0, mult=1,
         md = SurfaceHoppingDynamics(damp=damp, **kw)
     else:
         raise ValueError(engine)
+    return md
+
+
+def build_md(engine, species, coords, sett, dt, Temp, output, charges=0, mult=1, damp=None, xl=None,
+             velocities=None, engine_kw=None):
+    """-> (molecule, md).  engine in basic | langevin | xl | ksa | sh (surface hopping).
+    Molecule and driver share ONE settings dict (Molecule adds 'elements' to it)."""
+    import torch
+    from seqm.Molecule import Molecule
+    from seqm.seqm_functions.constants import Constants
+    sett = copy.deepcopy(sett)
+    sp, xyz = _as_batch(species, coords)
+    spt = torch.as_tensor(sp, dtype=torch.int64)
+    xt = torch.as_tensor(xyz, dtype=torch.float64).clone()
+    if not isinstance(charges, (int, float)):
+        charges = torch.as_tensor(np.asarray(charges), dtype=torch.float64)
+    if not isinstance(mult, (int, float)):
+        mult = torch.as_tensor(np.asarray(mult), dtype=torch.float64)
+    mol = Molecule(Constants(), sett, xt, spt, charges, mult)
+    md = make_engine(engine, sett, dt, Temp, output, damp=damp, xl=xl, engine_kw=engine_kw)
     if velocities is not None:
         v = np.asarray(velocities, dtype=float)
         if v.ndim == 2:
